@@ -3360,6 +3360,10 @@ class GZipContentEncoding(OutputTransform):
                 self._compressible_type(ctype)
                 and (not finishing or len(chunk) >= self.MIN_LENGTH)
                 and ("Content-Encoding" not in headers)
+                # 1xx, 204 and 304 responses have no body, so there is
+                # nothing to encode (even an empty gzip stream is a body).
+                and status_code not in (204, 304)
+                and not (100 <= status_code < 200)
             )
         if self._gzipping:
             headers["Content-Encoding"] = "gzip"
